@@ -30,12 +30,16 @@ func SpecFor(prop, tier string) MassSpec {
 		}}
 	case "C04":
 		if thorough {
-			return MassSpec{Deviations: 2, WithPanic: true, ExtraOps: CorpusOps(), Gens: []GenCfg{
-				{Root: "Query", Fields: fieldsFor("core"), Conds: ProbeConds, MaxNodes: 4},
+			return MassSpec{Deviations: 1, WithPanic: true, Intercept: true, ExtraOps: append(CorpusOps(), FaultOps()...), Gens: []GenCfg{
+				{Root: "Query", Fields: fieldsFor("core"), Conds: ProbeConds, MaxNodes: 4, Spreads: true},
+				{Root: "Query", Fields: fieldsFor("wide"), Conds: ProbeConds, MaxNodes: 3, Aliases: true},
+				{Root: "Mutation", Fields: fieldsFor("core"), Conds: ProbeConds, MaxNodes: 4},
+				{Root: "Query", Fields: fieldsFor("core"), Conds: ProbeConds, MaxNodes: 3, Dev: 2},
 			}}
 		}
-		return MassSpec{Deviations: 1, WithPanic: true, ExtraOps: CorpusOps(), Gens: []GenCfg{
-			{Root: "Query", Fields: fieldsFor("core"), Conds: ProbeConds, MaxNodes: 3},
+		return MassSpec{Deviations: 1, WithPanic: true, Intercept: true, ExtraOps: append(CorpusOps(), FaultOps()...), Gens: []GenCfg{
+			{Root: "Query", Fields: fieldsFor("core"), Conds: ProbeConds, MaxNodes: 4},
+			{Root: "Query", Fields: fieldsFor("wide"), Conds: ProbeConds, MaxNodes: 3},
 			{Root: "Mutation", Fields: fieldsFor("core"), Conds: ProbeConds, MaxNodes: 3},
 		}}
 	}
@@ -66,6 +70,15 @@ func CorpusOps() []Op {
 	return out
 }
 
+// FaultOps: operations that put the custom-scalar marshaler / unmarshaler on a path.
+func FaultOps() []Op {
+	return []Op{
+		{Text: `{argBoom(b:"x") t{boom name}}`},
+		{Text: `query($b:Boom){argBoom(b:$b) str}`, Vars: map[string]any{"b": "y"}},
+		{Text: `{ts{boom kids{boom}}}`},
+	}
+}
+
 // HarnessMain is the entry point of the generated-package-specific harness binary.
 func HarnessMain(w Wiring) {
 	w.Config = os.Getenv("VERIF_CONFIG")
@@ -87,8 +100,9 @@ func HarnessMain(w Wiring) {
 		}
 		os.Exit(s.ReplayCase(doc.Replay.Case))
 	}
-	switch prop {
-	case "C01", "C04":
+	sched := argValue("--emit-stats") != "" || argValue("--scenario") != "" || argValue("--replay") != ""
+	switch {
+	case (prop == "C01" || prop == "C04") && !sched:
 		s.MassMain(SpecFor(prop, tier))
 	default:
 		if f, ok := schedProps[prop]; ok {
